@@ -41,7 +41,8 @@ class Boom(Exception):
 
 # ---- (a) run histories --------------------------------------------------------------------------------
 KINDS = ('ok', 'raise', 'raise-IndexError', 'raise-KeyError', 'raise-StopIteration', 'return7', 'return0', 'returnFalse', 'blocked',
-         'till', 'till0', 'till3', 'tillnow', 'till-parked', 'till-scope', 'till-past', 'cancel-tie', 'nested-ok', 'nested-raise', 'nested-leak')
+         'till', 'till0', 'till3', 'tillnow', 'till-parked', 'till-scope', 'till-past', 'cancel-tie', 'nested-ok', 'nested-raise', 'nested-leak',
+         'cleanup-blocked', 'cleanup-raise', 'ctx-thread', 'handback', 'handback-till')
 
 
 def do_run(kind, start, log):
@@ -176,6 +177,96 @@ def do_run(kind, start, log):
         usim.run(parent('p', False), parent('q', True), a('c', 4), start=start)
         if ('p', 'end', start + 3) not in marks or ('q', 'end', start + 1) not in marks or marks[-1] != ('c', 'end', start + 4):
             msgs.append('cancel-tie: %r' % (marks,))
+    elif kind in ('cleanup-blocked', 'cleanup-raise'):
+        # other roots are still suspended - inside code whose cleanup touches the simulation - when run() ends
+        exc = Boom('x')
+
+        def fail():
+            raise exc
+
+        async def guarded(name):
+            marks.append((name, 'start', time.now))
+            try:
+                await eternity
+            finally:
+                marks.append((name, 'cleanup', time.now))
+
+        async def owner(name):
+            marks.append((name, 'start', time.now))
+            async with Scope() as scope:
+                scope.do(a(name + '1', 1))
+                await eternity
+        pending = [guarded('g'), owner('w')]
+        try:
+            usim.run(a('a', 2, fail if kind == 'cleanup-raise' else None), *pending, start=start)
+            if kind == 'cleanup-raise':
+                msgs.append('cleanup-raise: run() swallowed the exception of a root activity')
+        except BaseException as e:
+            if kind != 'cleanup-raise' or e is not exc:
+                msgs.append('%s: run() raised %r%s' % (kind, e, '' if kind != 'cleanup-raise' else ' instead of the very exception of the root activity'))
+        finally:
+            for c in pending:
+                try:
+                    c.close()
+                except BaseException:       # noqa  (their cleanup runs outside any simulation now)
+                    pass
+        check_order(['a', 'g', 'w'])
+        if ('a', 'end', start + 2) not in marks or ('w1', 'end', start + 1) not in marks:
+            msgs.append('%s: %r' % (kind, marks))
+    elif kind == 'ctx-thread':
+        # another thread that runs its job inside a copy of this thread's context (contextvars.copy_context().run) is still
+        # another thread: it sees no simulation, and a simulation it runs is its own; a context captured during the run
+        # shows no simulation once run() has returned
+        import contextvars
+        seen, captured = [], []
+
+        def job():
+            seen.append(('outside-before', outside()))
+            inner = []
+            try:
+                seen.append(('inner', do_run('ok', start + 700, None)))
+            except BaseException as e:      # noqa
+                seen.append(('inner', ['raised %r' % (e,)]))
+            seen.append(('outside-after', outside()))
+
+        async def host():
+            marks.append(('host', 'start', time.now))
+            await (time + 1)
+            captured.append(contextvars.copy_context())
+            th = threading.Thread(target=contextvars.copy_context().run, args=(job,))
+            th.start()
+            th.join()
+            marks.append(('host', 'mid', time.now))
+            await (time + 1)
+            marks.append(('host', 'end', time.now))
+        usim.run(host(), start=start)
+        if marks != [('host', 'start', start), ('host', 'mid', start + 1), ('host', 'end', start + 2)]:
+            msgs.append('ctx-thread: the hosting simulation logged %r' % (marks,))
+        if seen != [('outside-before', True), ('inner', []), ('outside-after', True)]:
+            msgs.append('ctx-thread: a thread running in a copy of the context of a simulating thread observed %r' % (seen,))
+        if captured and not captured[0].run(outside):
+            msgs.append('ctx-thread: a context captured during the run still shows a simulation after run() returned')
+    elif kind in ('handback', 'handback-till'):
+        # resources held by an activity that is closed forcefully as the very last step of the run are back afterwards
+        res = usim.Resources(a=2)
+        cap = usim.Capacities(b=3)
+
+        async def holder(name):
+            marks.append((name, 'start', time.now))
+            async with res.borrow(a=1):
+                async with cap.borrow(b=2):
+                    await eternity
+
+        async def root():
+            async with usim.until(time + 1) as scope:
+                scope.do(holder('h'))
+                await eternity
+        if kind == 'handback':
+            usim.run(root(), start=start)
+        else:
+            usim.run(holder('h'), start=start, till=start + 1)
+        if res.levels.a != 2 or cap.levels.b != 3:
+            msgs.append('%s: after run() returned the resources read a=%r (of 2), b=%r (of 3)' % (kind, res.levels.a, cap.levels.b))
     elif kind.startswith('nested'):
         inner_kind = {'nested-ok': 'ok', 'nested-raise': 'raise', 'nested-leak': 'return0'}[kind]
         inner_msgs = []
